@@ -81,6 +81,7 @@ type FuncSpec struct {
 	MF       string
 	MFArgs   []Expr
 	SetMF    []GhostUpdate
+	HavocMF  []string // model fields of argument 0 that the call rewrites (new value constrained by ensures)
 	Havoc    []int // argument indexes (receiver is 0) whose object is havoc'd
 	Effects  []string
 	Modifies []string
@@ -137,7 +138,7 @@ func parseClause(rest string, fs *FuncSpec, file string, line int) (*Clause, err
 func shortHash(s string) uint32 { return hashStr(strings.Join(strings.Fields(s), " ")) % 100000 }
 
 var topKeywords = map[string]bool{"func": true, "requires": true, "ensures": true, "ghost": true, "let": true, "site": true, "loop": true,
-	"define": true, "kind": true, "pure": true, "nofx": true, "fresh": true, "mf": true, "setmf": true, "havocobj": true, "effect": true, "props": true, "sweep": true,
+	"define": true, "kind": true, "pure": true, "nofx": true, "fresh": true, "mf": true, "setmf": true, "havocobj": true, "havocmf": true, "effect": true, "props": true, "sweep": true,
 	"assert": true, "witness": true, "update": true, "bind": true, "invariant": true, "where": true, "optional": true, "trusted": true, "returns": true}
 
 // parseSpecText parses contract text. prefix is "//@" for in-repo files and "" for dependency specs.
@@ -258,6 +259,11 @@ func parseSpecText(db *SpecDB, text, file, prefix string, assumed bool) error {
 				fmt.Sscanf(f, "%d", &n)
 				fs.Havoc = append(fs.Havoc, n)
 			}
+		case "havocmf":
+			if fs.Kind == "" {
+				fs.Kind = "nofx"
+			}
+			fs.HavocMF = append(fs.HavocMF, strings.Fields(rest)...)
 		case "effect":
 			fs.Effects = append(fs.Effects, strings.Fields(rest)...)
 		case "requires":
@@ -455,6 +461,22 @@ func (db *SpecDB) lookup(keys ...string) *FuncSpec {
 				if fs, ok := db.Funcs[k[:i]+".*"]; ok {
 					return fs
 				}
+			}
+		}
+	}
+	for _, k := range keys {
+		// functional options: "functype:*Option"
+		if strings.HasPrefix(k, "functype:") && strings.HasSuffix(k, "Option") {
+			if fs, ok := db.Funcs["functype:*Option"]; ok {
+				return fs
+			}
+		}
+	}
+	for _, k := range keys {
+		// all methods of a type: "(schema.GroupVersionKind).*"
+		if i := strings.LastIndex(k, ")."); i >= 0 && strings.HasPrefix(k, "(") {
+			if fs, ok := db.Funcs[k[:i+2]+"*"]; ok {
+				return fs
 			}
 		}
 	}
